@@ -736,6 +736,7 @@ def run(prop, tier, seed, outdir, replay, ctx):
         v.setdefault('case', 0)
         v.setdefault('log', '')
     coverage = dict(evaluations=stats['evaluations'], distinct_nontrivial=len(stats['distinct']), rule=spec['rule'], samples=samples or ['(none)'],
+                    explanation=spec['level_text'],
                     structs_compared=stats.get('structs', 0), functions_compared=stats.get('functions', 0), statics_compared=stats.get('statics', 0),
                     cross_boundary_transfers=stats['transfers'], call_through_checks=stats['calls'],
                     rust_structs_without_c_struct=sorted(stats['structs_without_c_definition']), widths=[t for _, t in widths], exhaustive=True,
